@@ -517,7 +517,8 @@ def c12(tier, seed):
                     mvs.append(e["mv"])
                     if len(mvs) <= (8 if quick else 30) and rnd.random() < (0.2 if quick else 0.25):
                         hist.append((root, list(mvs)))
-    cases += hist
+    rnd.shuffle(hist)
+    cases += hist[:25 if quick else 150]        # each history case replays its prefix 20480 times: keep them few
     cases.append(("startpos", []))
     cases.append(("startpos", "e2e4 a7a6 e4e5 d7d5".split()))
     if quick and len(cases) > 70:
